@@ -170,7 +170,7 @@ def run_c21(v):
     if n_cases == 0:
         raise lib.ToolError("MC_Highlight printed no CASE lines")
     s1 = _drive(v, "highlight", "cases", {"C21"}, ["--cases", cases, "--max-cases", 100 if quick else 1500])
-    s2 = _drive(v, "highlight", "random", {"C21"}, ["--scenarios", 8 if quick else 120, "--requests", 25 if quick else 60])
+    s2 = _drive(v, "highlight", "random", {"C21"}, ["--scenarios", 8 if quick else 80, "--requests", 25 if quick else 50])
     v.coverage.update({
         "states": mc["distinct"], "transitions": mc["states"],
         "traces_validated_against_impl": s1["scenarios"] + s2["scenarios"],
